@@ -16,6 +16,7 @@ mod c12;
 mod c13;
 mod c14;
 mod c16;
+mod c17;
 mod c18;
 mod c19;
 mod c20;
@@ -37,6 +38,7 @@ fn main() {
         "C13" => Some(c13::check()),
         "C14" => Some(c14::check()),
         "C16" => Some(c16::check()),
+        "C17" => Some(c17::check()),
         "C18" => Some(c18::check()),
         "C19" => Some(c19::check()),
         "C20" => Some(c20::check()),
